@@ -216,6 +216,9 @@ impl TypePathType {
                     "NonZeroU128" => parse_quote!(::core::num::NonZeroU128),
                     "NonZeroIsize" => parse_quote!(::core::num::NonZeroIsize),
                     "NonZeroUsize" => parse_quote!(::core::num::NonZeroUsize),
+                    "Duration" => parse_quote!(::core::time::Duration),
+                    // scale-info describes every `PhantomData<T>` as the zero-sized `PhantomData<()>`.
+                    "PhantomData" => parse_quote!(::core::marker::PhantomData<()>),
                     ident => panic!("Unknown prelude type '{ident}'"),
                 }
             }
